@@ -46,6 +46,26 @@ Theorem C14_drained_means_in_sync_partial : forall c : case,
 Proof. exact drained_means_in_sync. Qed.
 Print Assumptions C14_drained_means_in_sync_partial.
 
+(* The two known classes are exact, not over-approximations: after ANY history outside them, a
+   request the client secures while its renew request is outstanding finds the server on the next
+   token when it arrives (after the frames ahead of it), whatever happens on the other link, and
+   is rejected; and a response written ahead of a queued renew response finds the client still on
+   an earlier token and is rejected. *)
+Theorem C14_class1_exact : forall c : case, known c = 0 -> renewing (after c) = true ->
+  let s := after c in
+  let s2 := srecv_n (length (c2s s)) (fst (step s CSend)) in
+  racy s CSend = 1 /\ se s2 = ce s + 1 /\ snd (step s2 SRecv) = 0.
+Proof. exact class1_exact. Qed.
+Print Assumptions C14_class1_exact.
+
+Theorem C14_class2_exact : forall (c : case) (r : list resp),
+  known c = 0 -> sq (after c) = RMsg :: r -> has_ropn r = true ->
+  let s := after c in
+  let s2 := crecv_n (length (s2c s)) (fst (step s SWrite)) in
+  racy s SWrite = 2 /\ ce s2 < se s /\ snd (step s2 CRecv) = 0.
+Proof. exact class2_exact. Qed.
+Print Assumptions C14_class2_exact.
+
 Theorem C14_oracle : forall c : case, known c = 0 -> oracle c (run c) = true.
 Proof. exact oracle_holds. Qed.
 Print Assumptions C14_oracle.
